@@ -118,6 +118,41 @@ func runC03(c *core.Ctx) {
 			}, core.SuccessReturn, prune, "a dirty root is committed (error checked) before Commit returns nil")
 	}
 	c03ChildResolved(c)
+	// a child exists if EITHER its pointer is loaded OR its hash is recorded (collapsed): code that counts a
+	// branch's children to decide whether to reduce it must test both, or it discards collapsed (committed) siblings
+	if fn := anchorF(c, pkg, "getChildPosition"); fn != nil {
+		ok := false
+		for _, b := range fn.Blocks {
+			ifi, isIf := b.Instrs[len(b.Instrs)-1].(*ssa.If)
+			if !isIf {
+				continue
+			}
+			ptr, enc := false, false
+			// the disjunction `children[i] != nil || len(EncodedChildren[i]) != 0` is lowered to two nested ifs or a phi
+			conds := []ssa.Value{ifi.Cond}
+			for _, s2 := range b.Succs {
+				if i2, ok2 := s2.Instrs[len(s2.Instrs)-1].(*ssa.If); ok2 {
+					conds = append(conds, i2.Cond)
+				}
+			}
+			for _, cv := range conds {
+				for _, d := range core.Disjuncts(cv) {
+					k := core.ExprKey(d)
+					if strings.Contains(k, ".children[") && strings.Contains(k, "nil") {
+						ptr = true
+					}
+					if strings.Contains(k, "len(") && strings.Contains(k, ".EncodedChildren[") {
+						enc = true
+					}
+				}
+			}
+			if ptr && enc {
+				ok = true
+			}
+		}
+		c.Check(ok, "C03/collapsed-children-count", "getChildPosition", fn.Pos(), "a child slot counts as occupied when its pointer is set OR its encoded hash is present",
+			"getChildPosition does not count collapsed children (EncodedChildren): on a recreated trie a delete reduces a branch that still has committed siblings, dropping them")
+	}
 	c.Floor("C03/commit-writes-node", 3)
 	c.Floor("C03/commit-children-first", 2)
 	c.Floor("C03/stored-under-own-hash", 2)
